@@ -30,7 +30,7 @@ var c07Faults = []struct{ Point, Kind string }{
 	{"backend", "short-content-length"}, {"backend", "rst-mid-chunk"}, {"backend", "bad-chunk-size"}, {"backend", "one-byte-then-trailers"}, {"backend", "lying-content-encoding"},
 	{"backend-h2", "abort-before-headers"}, {"backend-h2", "abort-mid-body"}, {"backend-h2", "huge-headers"}, {"backend-h2", "slow-then-abort"},
 	{"upload", "500x3"}, {"upload", "404"}, {"upload", "reset-at-0"}, {"upload", "reset-at-4096"}, {"upload", "reset-at-end"}, {"upload", "stall"},
-	{"shim", "data-malformed-json"}, {"shim", "data-unknown-session"}, {"shim", "poll-unknown-session"}, {"shim", "close-unknown-session"}, {"shim", "open-backend-refuses-upgrade"}, {"shim", "open-slow-failure-overlapping-opens"}, {"shim", "open-malformed-url"}, {"shim", "data-wrong-shape"},
+	{"shim", "data-malformed-json"}, {"shim", "data-unknown-session"}, {"shim", "poll-unknown-session"}, {"shim", "close-unknown-session"}, {"shim", "open-backend-refuses-upgrade"}, {"shim", "open-slow-failure-overlapping-opens"}, {"shim", "backend-closes-session-normally"}, {"shim", "backend-closes-session-going-away"}, {"shim", "open-malformed-url"}, {"shim", "data-wrong-shape"},
 }
 
 type c07Lane struct {
@@ -518,6 +518,10 @@ func c07Lane_(r *core.Run, agentBin string, md *fakes.Metadata, li int, ln c07La
 					path, body = "/shim/open", "ws://x/fault/close-before-headers/ws"
 				case "open-malformed-url":
 					path, body = "/shim/open", "http://[::1"
+				case "backend-closes-session-normally":
+					path, body = "/shim/open", "ws://x/ws/echo/close-now/a"
+				case "backend-closes-session-going-away":
+					path, body = "/shim/open", "ws://x/ws/echo/close-now/going-away/b"
 				case "open-slow-failure-overlapping-opens":
 					// the dial fails only after 150 ms, while the shim-session lanes keep opening sessions
 					path, body = "/shim/open", "ws://x/fault/slow-close/ws"
@@ -535,6 +539,16 @@ func c07Lane_(r *core.Run, agentBin string, md *fakes.Metadata, li int, ln c07La
 					time.Sleep(400 * time.Millisecond)
 				}
 				up, got = px.Wait(id, 5*time.Second)
+				if strings.HasPrefix(f.Kind, "backend-closes-session") && got && up.Resp != nil && up.Resp.Status == 200 {
+					var om struct {
+						ID string `json:"id"`
+					}
+					json.Unmarshal(up.Resp.Body, &om)
+					for k := 0; k < 3; k++ {
+						shimCall(fmt.Sprintf("%s-poll%d", id, k), "/shim/poll", fmt.Sprintf(`{"id":%q}`, om.ID))
+					}
+					time.Sleep(300 * time.Millisecond)
+				}
 			}
 			if got && up != nil && up.Resp != nil {
 				if statusSeen[label] == nil {
